@@ -2,6 +2,7 @@ import SlipVerif.Model.Conc
 import Mathlib.Data.List.Basic
 import Mathlib.Data.List.Nodup
 import Mathlib.Data.List.Perm.Basic
+import Mathlib.Data.List.Perm.Subperm
 import Mathlib.Data.List.Count
 import Mathlib.Data.List.Infix
 import Mathlib.Tactic.Linarith
@@ -795,5 +796,543 @@ theorem inv_counter {S : Sys} {g : Nat → Nat} (hg : S.guarded g = true) {c : C
             unfold pend; rw [hr0]; simp [Ne.symm e]
           rw [hp0] at hpe
           rw [upd_other _ _ e]; omega
+
+/-! ## invariant: the enter/exit log of the trace passes the mutex checker -/
+
+theorem mutexRun_append (hs : List (Nat × Nat)) (a b : List MEv) :
+    mutexRun hs (a ++ b) = (mutexRun hs a).bind (fun hs' => mutexRun hs' b) := by
+  induction a generalizing hs with
+  | nil => rfl
+  | cons e a ih =>
+    simp only [List.cons_append, mutexRun]
+    cases mutexStep hs e with
+    | none => rfl
+    | some hs' => exact ih hs'
+
+theorem mutexLog_append (a b : List Event) : mutexLog (a ++ b) = mutexLog a ++ mutexLog b := by
+  simp [mutexLog, List.filterMap_append]
+
+theorem mutexLog_single (e : Event) :
+    mutexLog [e] = match e with
+      | .locked t m => [.enter t m]
+      | .unlocked t m => [.exit t m]
+      | _ => [] := by
+  cases e <;> simp [mutexLog]
+
+theorem inv_mutexRun {S : Sys} {c : Config} (h : Reachable S c) :
+    ∃ hs, mutexRun [] (mutexLog c.trace) = some hs ∧ hs.Nodup ∧
+      ∀ m t, (m, t) ∈ hs ↔ c.owner m = some t := by
+  induction h with
+  | init => exact ⟨[], by simp [init, mutexLog, mutexRun], List.nodup_nil, by simp [init]⟩
+  | @step c c' t hr hs ih =>
+    obtain ⟨st, hrun, hnd, hiff⟩ := ih
+    rcases step_cases hs with ⟨ch', v, hc, hp, rfl⟩ | ⟨ch', it, rest, hc, hq, rfl⟩ | ⟨m, hc, ho, rfl⟩ |
+      ⟨m, hc, ho, rfl⟩ | ⟨k0, hc, rfl⟩ | ⟨k0, v0, hc, hr0, rfl⟩
+    · exact ⟨st, by simp [advance, mutexLog_append, mutexLog_single, hrun], hnd, hiff⟩
+    · exact ⟨st, by simp [advance, mutexLog_append, mutexLog_single, hrun], hnd, hiff⟩
+    · have hnot : ∀ t', (m, t') ∉ st := fun t' hm => by
+        have := (hiff m t').mp hm
+        rw [ho] at this; cases this
+      have hany : st.any (fun p => p.1 == m) = false := by
+        rw [Bool.eq_false_iff]
+        intro hh
+        rw [List.any_eq_true] at hh
+        obtain ⟨⟨m', t'⟩, hmem, hm⟩ := hh
+        simp only [beq_iff_eq] at hm
+        subst hm
+        exact hnot t' hmem
+      refine ⟨(m, t) :: st, ?_, List.nodup_cons.mpr ⟨hnot t, hnd⟩, ?_⟩
+      · simp [advance, mutexLog_append, mutexLog_single, mutexRun_append, hrun, mutexRun, mutexStep, hany]
+      · intro m' t'
+        simp only [advance, List.mem_cons, Prod.mk.injEq]
+        by_cases em : m' = m
+        · subst em
+          rw [upd_same]
+          constructor
+          · rintro (⟨_, rfl⟩ | h)
+            · rfl
+            · exact absurd h (hnot t')
+          · intro h; exact Or.inl ⟨rfl, (Option.some.inj h).symm⟩
+        · rw [upd_other _ _ em]
+          constructor
+          · rintro (⟨h, _⟩ | h)
+            · exact absurd h em
+            · exact (hiff m' t').mp h
+          · intro h; exact Or.inr ((hiff m' t').mpr h)
+    · have hmem : (m, t) ∈ st := (hiff m t).mpr ho
+      refine ⟨st.erase (m, t), ?_, hnd.erase _, ?_⟩
+      · simp [advance, mutexLog_append, mutexLog_single, mutexRun_append, hrun, mutexRun, mutexStep, hmem]
+      · intro m' t'
+        simp only [advance]
+        rw [hnd.mem_erase_iff]
+        by_cases em : m' = m
+        · subst em
+          rw [upd_same]
+          constructor
+          · rintro ⟨hne, h⟩
+            have := (hiff m' t').mp h
+            rw [ho] at this
+            have : t = t' := Option.some.inj this
+            subst this
+            exact absurd rfl hne
+          · intro h; cases h
+        · rw [upd_other _ _ em]
+          constructor
+          · rintro ⟨_, h⟩; exact (hiff m' t').mp h
+          · intro h
+            refine ⟨?_, (hiff m' t').mpr h⟩
+            intro e; injection e with e1 _; exact em e1
+    · exact ⟨st, by simp [advance, mutexLog_append, mutexLog_single, hrun], hnd, hiff⟩
+    · exact ⟨st, by simp [advance, mutexLog_append, mutexLog_single, hrun], hnd, hiff⟩
+
+/-! ## the mutex checker on arbitrary logs -/
+
+theorem mutexRun_keeps {hs hs' : List (Nat × Nat)} {l : List MEv} {m t : Nat}
+    (hmem : (m, t) ∈ hs) (hrun : mutexRun hs l = some hs') (hno : MEv.exit t m ∉ l) :
+    (m, t) ∈ hs' := by
+  induction l generalizing hs with
+  | nil => simp [mutexRun] at hrun; subst hrun; exact hmem
+  | cons e l ih =>
+    simp only [mutexRun] at hrun
+    cases hstep : mutexStep hs e with
+    | none => rw [hstep] at hrun; cases hrun
+    | some hs1 =>
+      rw [hstep] at hrun
+      have hno' : MEv.exit t m ∉ l := fun h => hno (List.mem_cons_of_mem _ h)
+      refine ih ?_ hrun hno'
+      cases e with
+      | enter t' m' =>
+        simp only [mutexStep] at hstep
+        split at hstep
+        · cases hstep
+        · cases hstep; exact List.mem_cons_of_mem _ hmem
+      | exit t' m' =>
+        simp only [mutexStep] at hstep
+        split at hstep
+        · cases hstep
+          have hne : (m, t) ≠ (m', t') := by
+            intro e
+            injection e with e1 e2
+            subst e1; subst e2
+            exact hno (List.mem_cons_self ..)
+          exact (List.mem_erase_of_ne hne).mpr hmem
+        · cases hstep
+
+theorem mutexRun_enter_blocked {hs : List (Nat × Nat)} {l : List MEv} {m t t2 : Nat}
+    (hmem : (m, t) ∈ hs) : mutexRun hs (MEv.enter t2 m :: l) = none := by
+  have : hs.any (fun p => p.1 == m) = true := by
+    rw [List.any_eq_true]; exact ⟨(m, t), hmem, by simp⟩
+  simp [mutexRun, mutexStep, this]
+
+theorem mutexRun_after_enter {hs hs' : List (Nat × Nat)} {l : List MEv} {m t : Nat}
+    (hrun : mutexRun hs (MEv.enter t m :: l) = some hs') :
+    mutexRun ((m, t) :: hs) l = some hs' := by
+  simp only [mutexRun, mutexStep] at hrun
+  by_cases h : hs.any (fun p => p.1 == m) = true
+  · simp [h] at hrun
+  · simpa [h] using hrun
+
+/-! ## partition of the receive log by consumer -/
+
+theorem flatten_map_insert_perm {α : Type} (L : List Nat) (hnd : L.Nodup) (t0 : Nat) (ht : t0 ∈ L)
+    (f : Nat → List α) (x : α) :
+    (L.map (fun t => if t = t0 then x :: f t else f t)).flatten.Perm (x :: (L.map f).flatten) := by
+  induction L with
+  | nil => cases ht
+  | cons a L ih =>
+    have hnd' := (List.nodup_cons.mp hnd)
+    by_cases e : a = t0
+    · subst e
+      have : L.map (fun t => if t = a then x :: f t else f t) = L.map f := by
+        apply List.map_congr_left
+        intro t htl
+        have : t ≠ a := fun e => hnd'.1 (e ▸ htl)
+        simp [this]
+      simp [this]
+    · have ht' : t0 ∈ L := by
+        rcases List.mem_cons.mp ht with h | h
+        · exact absurd h.symm e
+        · exact h
+      have := ih hnd'.2 ht'
+      simp only [List.map_cons, List.flatten_cons, if_neg e]
+      exact (List.Perm.append_left (f a) this).trans List.perm_middle
+
+theorem recvBy_cons (t ch : Nat) (e : Event) (tr : List Event) :
+    recvBy t ch (e :: tr) = (match e with
+      | .popped t' ch' it => if t' = t ∧ ch' = ch then [it] else []
+      | _ => []) ++ recvBy t ch tr := by
+  cases e <;> simp [recvBy, List.filterMap_cons]
+  split <;> simp_all
+
+theorem recvLog_cons (ch : Nat) (e : Event) (tr : List Event) :
+    recvLog ch (e :: tr) = (match e with
+      | .popped _ ch' it => if ch' = ch then [it] else []
+      | _ => []) ++ recvLog ch tr := by
+  cases e <;> simp [recvLog, List.filterMap_cons]
+  split <;> simp_all
+
+/-- the per-consumer receive lists are a partition of the channel's receive log -/
+theorem flatten_recvBy_perm (n ch : Nat) (tr : List Event)
+    (hlt : ∀ t ch' it, Event.popped t ch' it ∈ tr → t < n) :
+    ((List.range n).map (fun t => recvBy t ch tr)).flatten.Perm (recvLog ch tr) := by
+  induction tr with
+  | nil =>
+    have : (List.range n).map (fun t => recvBy t ch []) = (List.range n).map (fun _ => ([] : List Item)) := rfl
+    rw [this]
+    simp [recvLog]
+  | cons e tr ih =>
+    have ih' := ih (fun t ch' it h => hlt t ch' it (List.mem_cons_of_mem _ h))
+    cases e with
+    | popped t0 ch' it =>
+      by_cases ec : ch' = ch
+      · subst ec
+        have ht0 : t0 < n := hlt t0 ch' it (List.mem_cons_self ..)
+        have hfun : (fun t => recvBy t ch' (Event.popped t0 ch' it :: tr)) =
+            (fun t => if t = t0 then it :: recvBy t ch' tr else recvBy t ch' tr) := by
+          funext t
+          rw [recvBy_cons]
+          by_cases e : t0 = t
+          · subst e; simp
+          · simp [e, Ne.symm e]
+        rw [hfun, recvLog_cons]
+        simp only [if_true, List.singleton_append]
+        exact (flatten_map_insert_perm (List.range n) List.nodup_range t0 (List.mem_range.mpr ht0)
+          (fun t => recvBy t ch' tr) it).trans (List.Perm.cons it ih')
+      · have hfun : (fun t => recvBy t ch (Event.popped t0 ch' it :: tr)) = (fun t => recvBy t ch tr) := by
+          funext t
+          rw [recvBy_cons]; simp [ec]
+        rw [hfun, recvLog_cons]; simpa [ec] using ih'
+    | pushed _ _ _ => simpa [recvBy_cons, recvLog_cons] using ih'
+    | locked _ _ => simpa [recvBy_cons, recvLog_cons] using ih'
+    | unlocked _ _ => simpa [recvBy_cons, recvLog_cons] using ih'
+    | loaded _ _ _ => simpa [recvBy_cons, recvLog_cons] using ih'
+    | stored _ _ _ => simpa [recvBy_cons, recvLog_cons] using ih'
+
+theorem recvBy_sublist (t ch : Nat) (tr : List Event) : (recvBy t ch tr).Sublist (recvLog ch tr) := by
+  induction tr with
+  | nil => simp [recvBy, recvLog]
+  | cons e tr ih =>
+    rw [recvBy_cons, recvLog_cons]
+    cases e with
+    | popped t' ch' it =>
+      by_cases e1 : ch' = ch
+      · by_cases e2 : t' = t
+        · simp [e1, e2, ih]
+        · simp only [e1, e2, false_and, if_false, if_true, List.nil_append, List.singleton_append]
+          exact List.Sublist.cons _ ih
+      · simp [e1, ih]
+    | _ => simpa using ih
+
+/-- popped events carry the id of an existing thread -/
+theorem inv_popped_tid {S : Sys} {c : Config} (h : Reachable S c) :
+    ∀ t ch it, Event.popped t ch it ∈ c.trace → t < S.progs.length := by
+  induction h with
+  | init => intro t ch it h; simp [init] at h
+  | @step c c' t0 hr hs ih =>
+    intro t ch it hmem
+    rcases step_cases hs with ⟨ch', v, hc, hp, rfl⟩ | ⟨ch', it', rest, hc, hq, rfl⟩ | ⟨m, hc, ho, rfl⟩ |
+      ⟨m, hc, ho, rfl⟩ | ⟨k0, hc, rfl⟩ | ⟨k0, v0, hc, hr0, rfl⟩
+    all_goals
+      simp only [advance, List.mem_append, List.mem_singleton] at hmem
+      rcases hmem with hmem | hmem
+      · exact ih t ch it hmem
+      · first
+        | (injection hmem with h1 _ _; subst h1; exact cur_lt hc)
+        | cases hmem
+
+/-! ## structured statements -/
+
+theorem compile_heldFrom (s : Stmt) (hs : List Nat) : heldFrom hs (compile s).1 = hs := by
+  induction s generalizing hs with
+  | skip => rfl
+  | seq a b iha ihb =>
+    simp only [compile]
+    cases ha : compile a with
+    | mk oa fa =>
+      have ha' := iha hs
+      rw [ha] at ha'
+      cases fa with
+      | true => exact ha'
+      | false =>
+        cases hb : compile b with
+        | mk ob fb =>
+          have hb' := ihb hs
+          rw [hb] at hb'
+          simp only [heldFrom_append]
+          simp only at ha' hb'
+          rw [ha', hb']
+  | push ch v => rfl
+  | pop ch => rfl
+  | incr k => rfl
+  | withLock m b ih =>
+    simp only [compile]
+    cases hb : compile b with
+    | mk ob fb =>
+      have hb' := ih (m :: hs)
+      rw [hb] at hb'
+      simp only at hb'
+      simp only [heldFrom, heldFrom_append, hb']
+      simp
+  | fail => rfl
+  | protect b ih => exact ih hs
+
+/-! ## read log -/
+
+theorem readLog_filter (k : Nat) (tr : List Event) :
+    ((readLog tr).filter (fun r => r.1 == k)).map (·.2) = loadLog k tr := by
+  induction tr with
+  | nil => rfl
+  | cons e tr ih =>
+    cases e with
+    | loaded t k' v =>
+      simp only [readLog, loadLog, List.filterMap_cons] at ih ⊢
+      by_cases ek : k' = k
+      · simp [ek, ih]
+      · simp [ek, ih]
+    | _ => simpa [readLog, loadLog, List.filterMap_cons] using ih
+
+/-! ## mutex checker soundness -/
+
+theorem mutexRun_split {hs hs' : List (Nat × Nat)} {a b : List MEv}
+    (h : mutexRun hs (a ++ b) = some hs') : ∃ hm, mutexRun hs a = some hm ∧ mutexRun hm b = some hs' := by
+  rw [mutexRun_append] at h
+  cases ha : mutexRun hs a with
+  | none => rw [ha] at h; cases h
+  | some hm => rw [ha] at h; exact ⟨hm, rfl, h⟩
+
+theorem mutexOk_sound_aux (q : Bool) (log : List MEv) (h : mutexOk q log = true) :
+    (∀ l1 l2 l3 t1 t2 m, log = l1 ++ MEv.enter t1 m :: (l2 ++ MEv.enter t2 m :: l3) →
+        MEv.exit t1 m ∈ l2) ∧
+    (q = true → ∀ l1 l2 t m, log = l1 ++ MEv.enter t m :: l2 → MEv.exit t m ∈ l2) := by
+  unfold mutexOk at h
+  cases hrun : mutexRun [] log with
+  | none => rw [hrun] at h; cases h
+  | some hs =>
+    rw [hrun] at h
+    constructor
+    · intro l1 l2 l3 t1 t2 m hl
+      subst hl
+      obtain ⟨hA, _, h2⟩ := mutexRun_split hrun
+      have h3 := mutexRun_after_enter h2
+      obtain ⟨hB, h4, h5⟩ := mutexRun_split h3
+      by_contra hno
+      have hmem := mutexRun_keeps (List.mem_cons_self ..) h4 hno
+      rw [mutexRun_enter_blocked hmem] at h5
+      cases h5
+    · intro hq l1 l2 t m hl
+      subst hl hq
+      obtain ⟨hA, _, h2⟩ := mutexRun_split hrun
+      have h3 := mutexRun_after_enter h2
+      by_contra hno
+      have hmem := mutexRun_keeps (List.mem_cons_self ..) h3 hno
+      simp only [Bool.not_true, Bool.false_or, List.isEmpty_iff] at h
+      rw [h] at hmem
+      cases hmem
+
+/-! ## FIFO checker soundness -/
+
+theorem fromP_append (p : Nat) (a b : List Item) : fromP p (a ++ b) = fromP p a ++ fromP p b := by
+  simp [fromP]
+
+theorem mem_fromP {p x : Nat} {l : List Item} : x ∈ fromP p l ↔ (⟨p, x⟩ : Item) ∈ l := by
+  unfold fromP
+  simp only [List.mem_map, List.mem_filter, beq_iff_eq]
+  constructor
+  · rintro ⟨it, ⟨hm, hs⟩, hv⟩
+    obtain ⟨s', v'⟩ := it
+    simp only at hs hv
+    subst hs hv
+    exact hm
+  · intro h; exact ⟨⟨p, x⟩, ⟨h, rfl⟩, rfl⟩
+
+theorem fromP_nodup {p : Nat} {l : List Item} (h : l.Nodup) : (fromP p l).Nodup := by
+  unfold fromP
+  apply List.Nodup.map_on _ (h.filter _)
+  intro x hx y hy hv
+  simp only [List.mem_filter, beq_iff_eq] at hx hy
+  obtain ⟨sx, vx⟩ := x
+  obtain ⟨sy, vy⟩ := y
+  simp only at hx hy hv
+  rw [hx.2, hy.2, hv]
+
+theorem fifoOk_sound_aux (o : FifoObs) (h : fifoOk o = true) :
+    (∀ l ∈ o.recv, ∀ pv ∈ o.sent, (fromP pv.1 l).Sublist pv.2) ∧
+    o.all.Nodup ∧
+    (∀ pv ∈ o.sent, fromP pv.1 o.left <:+ pv.2) ∧
+    (o.quiescent = true → ∀ pv ∈ o.sent, (fromP pv.1 o.all).Perm pv.2) := by
+  unfold fifoOk at h
+  simp only [Bool.and_eq_true] at h
+  obtain ⟨⟨⟨⟨_, hord⟩, hnd⟩, hleft⟩, hcnt⟩ := h
+  have hord' : ∀ l ∈ o.recv, ∀ pv ∈ o.sent, (fromP pv.1 l).Sublist pv.2 := by
+    intro l hl pv hpv
+    unfold orderOk at hord
+    rw [List.all_eq_true] at hord
+    have := hord l hl
+    rw [List.all_eq_true] at this
+    exact List.isSublist_iff_sublist.mp (this pv hpv)
+  have hnd' : o.all.Nodup := by
+    unfold nodupOk at hnd
+    exact of_decide_eq_true hnd
+  have hleft' : ∀ pv ∈ o.sent, fromP pv.1 o.left <:+ pv.2 := by
+    intro pv hpv
+    unfold leftOk at hleft
+    rw [List.all_eq_true] at hleft
+    exact List.isSuffixOf_iff_suffix.mp (hleft pv hpv)
+  refine ⟨hord', hnd', hleft', ?_⟩
+  intro hq pv hpv
+  unfold countOk at hcnt
+  rw [hq] at hcnt
+  simp only [Bool.not_true, Bool.false_or] at hcnt
+  rw [List.all_eq_true] at hcnt
+  have hlen := hcnt pv hpv
+  simp only [beq_iff_eq] at hlen
+  have hsub : fromP pv.1 o.all ⊆ pv.2 := by
+    intro x hx
+    unfold FifoObs.all at hx
+    rw [fromP_append, List.mem_append] at hx
+    rcases hx with hx | hx
+    · rw [mem_fromP, List.mem_flatten] at hx
+      obtain ⟨l, hl, hin⟩ := hx
+      exact (hord' l hl pv hpv).subset (mem_fromP.mpr hin)
+    · exact (hleft' pv hpv).subset hx
+  exact (List.subperm_of_subset (fromP_nodup hnd') hsub).perm_of_length_le (le_of_eq hlen.symm)
+
+/-! ## the model's observation of a channel passes `fifoOk` -/
+
+theorem sends_src {p ch : Nat} {ops : List Op} {it : Item} (h : it ∈ sends p ch ops) : it.src = p := by
+  unfold sends at h
+  rw [List.mem_filterMap] at h
+  obtain ⟨op, _, hop⟩ := h
+  cases op <;> simp at hop
+  obtain ⟨_, rfl⟩ := hop
+  rfl
+
+theorem nodup_of_filter_src {l : List Item} (h : ∀ p, (l.filter (fun it => it.src == p)).Nodup) :
+    l.Nodup := by
+  rw [List.nodup_iff_count_le_one]
+  intro a
+  have := List.nodup_iff_count_le_one.mp (h a.src) a
+  rwa [List.count_filter (by simp)] at this
+
+theorem sends_prog_nodup {S : Sys} {nch : Nat} (hd : S.distinctSends nch = true) {ch : Nat}
+    (hch : ch < nch) (p : Nat) : (sends p ch (S.prog p)).Nodup := by
+  by_cases hp : p < S.progs.length
+  · unfold Sys.distinctSends at hd
+    rw [List.all_eq_true] at hd
+    have := hd p (List.mem_range.mpr hp)
+    rw [List.all_eq_true] at this
+    exact of_decide_eq_true (this ch (List.mem_range.mpr hch))
+  · rw [prog_nil_of_ge S (by omega)]; simp [sends]
+
+theorem sends_take_prefix (p ch : Nat) (ops : List Op) (i : Nat) :
+    sends p ch (ops.take i) <+: sends p ch ops := by
+  obtain ⟨r, hr⟩ := List.take_prefix i ops
+  refine ⟨sends p ch r, ?_⟩
+  rw [← sends_append, hr]
+
+theorem pushLog_nodup {S : Sys} {nch : Nat} (hd : S.distinctSends nch = true) {c : Config}
+    (hr : Reachable S c) {ch : Nat} (hch : ch < nch) : (pushLog ch c.trace).Nodup := by
+  apply nodup_of_filter_src
+  intro p
+  rw [inv_pushLog_src hr ch p]
+  exact (sends_take_prefix p ch _ _).sublist.nodup (sends_prog_nodup hd hch p)
+
+theorem pushLog_src_lt {S : Sys} {c : Config} (hr : Reachable S c) {ch : Nat} {it : Item}
+    (h : it ∈ pushLog ch c.trace) : it.src < S.progs.length := by
+  by_contra hn
+  have h1 : it ∈ (pushLog ch c.trace).filter (fun x => x.src == it.src) := by
+    simp [List.mem_filter, h]
+  rw [inv_pushLog_src hr ch it.src, prog_nil_of_ge S (by omega)] at h1
+  simp [sends] at h1
+
+theorem fromP_pushLog {S : Sys} {c : Config} (hr : Reachable S c) (ch p : Nat) :
+    fromP p (pushLog ch c.trace) = (sends p ch ((S.prog p).take (c.pc p))).map (·.val) := by
+  unfold fromP; rw [inv_pushLog_src hr ch p]
+
+theorem obsFifo_all_perm {S : Sys} {c : Config} (hr : Reachable S c) (ch : Nat) :
+    (obsFifo S c ch).all.Perm (pushLog ch c.trace) := by
+  unfold FifoObs.all obsFifo
+  simp only
+  rw [← inv_conservation hr ch]
+  exact List.Perm.append_right _ (flatten_recvBy_perm _ ch c.trace (inv_popped_tid hr))
+
+theorem obsFifo_ok {S : Sys} {nch : Nat} (hd : S.distinctSends nch = true) {c : Config}
+    (hr : Reachable S c) {ch : Nat} (hch : ch < nch) :
+    (obsFifo S c ch).wf = true ∧ fifoOk (obsFifo S c ch) = true := by
+  have hperm := obsFifo_all_perm hr ch
+  have hpl := pushLog_nodup hd hr hch
+  have hcons := inv_conservation hr ch
+  constructor
+  · unfold FifoObs.wf obsFifo
+    simp only [Bool.and_eq_true, decide_eq_true_eq, List.map_map, List.all_map, List.all_eq_true]
+    constructor
+    · have : ((fun (x : Nat × List Nat) => x.1) ∘ fun p =>
+          (p, List.map (fun x => x.val) (sends p ch (List.take (c.pc p) (S.prog p))))) = id := rfl
+      rw [this, List.map_id]; exact List.nodup_range
+    · intro p _
+      simp only [Function.comp, decide_eq_true_eq]
+      rw [← fromP_pushLog hr ch p]
+      exact fromP_nodup hpl
+  · unfold fifoOk
+    simp only [Bool.and_eq_true]
+    refine ⟨⟨⟨⟨?_, ?_⟩, ?_⟩, ?_⟩, ?_⟩
+    · -- knownOk
+      unfold knownOk
+      rw [List.all_eq_true]
+      intro it hit
+      have hlt := pushLog_src_lt hr (hperm.mem_iff.mp hit)
+      rw [List.any_eq_true]
+      exact ⟨(it.src, _), by
+        unfold obsFifo
+        simp only [List.mem_map, List.mem_range]
+        exact ⟨it.src, hlt, rfl⟩, by simp⟩
+    · -- orderOk
+      unfold orderOk
+      rw [List.all_eq_true]
+      intro l hl
+      rw [List.all_eq_true]
+      intro pv hpv
+      unfold obsFifo at hl hpv
+      simp only [List.mem_map, List.mem_range] at hl hpv
+      obtain ⟨t, _, rfl⟩ := hl
+      obtain ⟨p, _, rfl⟩ := hpv
+      rw [List.isSublist_iff_sublist]
+      simp only
+      rw [← fromP_pushLog hr ch p]
+      unfold fromP
+      apply List.Sublist.map
+      apply List.Sublist.filter
+      refine (recvBy_sublist t ch c.trace).trans ?_
+      rw [← hcons]
+      exact List.sublist_append_left _ _
+    · -- nodupOk
+      unfold nodupOk
+      exact decide_eq_true (hperm.nodup_iff.mpr hpl)
+    · -- leftOk
+      unfold leftOk
+      rw [List.all_eq_true]
+      intro pv hpv
+      unfold obsFifo at hpv ⊢
+      simp only [List.mem_map, List.mem_range] at hpv
+      obtain ⟨p, _, rfl⟩ := hpv
+      rw [List.isSuffixOf_iff_suffix]
+      simp only
+      rw [← fromP_pushLog hr ch p, ← hcons, fromP_append]
+      exact List.suffix_append _ _
+    · -- countOk
+      unfold countOk
+      have : (obsFifo S c ch).sent.all
+          (fun pv => (fromP pv.1 (obsFifo S c ch).all).length == pv.2.length) = true := by
+        rw [List.all_eq_true]
+        intro pv hpv
+        have hpv' := hpv
+        unfold obsFifo at hpv'
+        simp only [List.mem_map, List.mem_range] at hpv'
+        obtain ⟨p, _, rfl⟩ := hpv'
+        simp only [beq_iff_eq]
+        rw [← fromP_pushLog hr ch p]
+        unfold fromP
+        exact ((hperm.filter _).map _).length_eq
+      rw [this]; simp
 
 end SlipVerif.Conc
